@@ -89,6 +89,8 @@ func (v *Verifier) verifyFunc(fn *ssa.Function, c *Contract) (err error) {
 		_ = allowed
 	}
 	defer func() { onTopReturn = nil }()
+	v.noPrune = c.NoPrune
+	defer func() { v.noPrune = false }()
 	states := []*State{st}
 	for _, en := range c.Enumerate {
 		states = v.enumerate(states, fn, c, en)
